@@ -50,6 +50,8 @@ Section Fold.
     match tr with
     | [] => (s, None)
     | r :: tr' =>
+        (* record 16: the real endpoint panicked — never a step of any model *)
+        if Z.eqb (nth 0 r (-1)) 16 then (s, Some i) else
         match step s r with
         | Some s' => run_from (i + 1) s' tr'
         | None => (s, Some i)
